@@ -24,21 +24,27 @@ from vlib import cstr, cz, cbool, clist  # noqa: E402
 from translate import codecfacts as tcf  # noqa: E402
 
 CLAIM = {
-    "text": "Theorems for ALL documents about an executable Coq model of the layer pandapipes adds to pandapower's "
-            "JSON/pickle machinery: decode (encode d) = the document without its `_` keys, every leaf replaced by "
-            "its quantised value, nothing else changed (tables, fluid with every property class incl. the "
-            "interpolator's renamed fields, std types, component classes, scalars; key order kept); saving a loaded "
-            "document reproduces the same bytes; format conversion is the identity on current-format documents and "
-            "idempotent. Facts the model depends on (key filter, prop_getter_entries, registry names, which classes "
-            "override to_dict/from_dict) are regenerated from the source on every run. The leaf codec (DataFrame / "
-            "ndarray / scalar encoding, 15 significant digits) is pandapower's and is an explicit assumption; the "
-            "differential tie runs the real four storage paths on nets of every component type and compares exactly.",
-    "note": "Theorems closed under the global context; the leaf law ldec (lenc v) = Some (quant v), quant idempotent, "
-            "are Section hypotheses (pandapower PPJSONEncoder/Decoder, pickle). Encrypted JSON (string, file name, file object; "
-            "`cryptography` is importable in this sandbox) is run and asserted not to be plain JSON; if the module were "
-            "missing the paths are recorded under skipped_paths.",
-    "technique": "Coq proof over hand-written codec-layer model + facts generated from the AST + differential "
-                 "round-trip on four storage paths",
+    "text": "Theorems for ALL documents about an executable Coq model of the layer pandapipes adds to pandapower's JSON / "
+            "pickle machinery: decode (encode d) = the document without its `_` keys, every leaf replaced by its quantised "
+            "value, nothing else changed, never failing (tables, fluid with all five property classes incl. the extra stored "
+            "fields of the interpolated and the polynomial class and the fill-rule codec, std types, component classes, scalars; "
+            "key order kept); the exact-codec instance (pickle: quant = identity); multi-energy nets (member pandapipes nets "
+            "through this layer, member pandapower nets and the controller table as leaves, member names / order kept); saving "
+            "a loaded document reproduces the same document; a second round trip is a fixpoint; convert_format incl. its "
+            "sector / default-component prelude is the identity on a current-format document of every sector and idempotent. "
+            "Facts the model relies on (key filters, prop_getter_entries, polynomial coefficients field, fill-value None codec, "
+            "which classes override to_dict, registry names, sector guard, convert_format prelude) are regenerated from the source "
+            "on every run and decided by seven computed theorems.",
+    "note": "All 23 theorems closed under the global context. The leaf codec (pandapower PPJSONEncoder / Decoder for DataFrames, "
+            "arrays, numbers, strings, controller objects, pandapower nets; pickle) is a PARAMETER of every theorem with the laws "
+            "ldec (lenc v) = Some (quant v), lenc (quant v) = lenc v, quant idempotent as explicit hypotheses - it is exercised, "
+            "not proved, by the differential tie: 40+ net kinds (every component type and sector, odd dtypes, custom / library-"
+            "named fluids, pump types of degree 1-4, controllers, multinet, results) x 8 storage paths (JSON string, convert=True, "
+            "file, file object, encrypted string / file / file object, pickle), exact comparison (JSON floats up to 15 decimal "
+            "places, pickle bit-exact), byte-identical re-save, pipeflow of the loaded net on every path. Not covered: "
+            "to_json(sort_keys=True), multinet pickle (not offered), old-format multinets.",
+    "technique": "Coq proof over hand-written codec-layer model + facts generated from the AST + differential round-trip on "
+                 "eight storage paths",
     "design": "DESIGN.md 4/C15 + design_notes/C15.md",
 }
 GEN = [("CodecFacts", lambda: tcf.generate()[0])]
